@@ -22,7 +22,7 @@ RULE = ("(E1) every Command subclass with every parameter value in its domain - 
         "C10 design, both capability pages, display toggle with beep on/off, state/energy/humidity queries - is serialised and fed to "
         "an independent spec-conforming device parser (0xAA, length byte, appliance 0xAC, frame type per command, message id + CRC-8, "
         "checksum, body grammar), also as every ordered pair of ~30 commands of all classes and sizes; the library CRC table is compared with a bitwise CRC-8. (E3 history) every public AirConditioner "
-        "operation is driven on the simulated wire in long mixed sequences (with injected retransmissions and several initial "
+        "operation is driven on the simulated wire in long mixed sequences (with injected retransmissions, commands that are never answered, answers in both trailer styles and several initial "
         "counter values): the device must accept every frame and ids must advance by exactly one modulo 256, retransmissions "
         "repeating their id. state = (last id, operation index); transition = one command on the wire")
 ASSUMPTIONS = ["the device-side grammar is the one in mc/refdevice.py (transcribed from the vendor Lua)",
@@ -282,12 +282,13 @@ def caps_full():
 def run_history(st: Stats, idx, start, n):
     """Long mixed sequence of public operations; ids observed on the wire."""
     dev_model = RefAC(cap_pages=caps_full())
-    drop = {"next": False}
+    drop = {"next": 0}
 
     def script(req):
         if drop["next"]:
-            drop["next"] = False
+            drop["next"] -= 1
             return                      # first transmission lost -> the library retransmits the same command
+                                        # (3 lost: the command is never answered; the NEXT command still takes the next id)
         for p in req.responses:
             req.send(p)
 
@@ -301,7 +302,12 @@ def run_history(st: Stats, idx, start, n):
         while len(rig.dev.rx) < n:
             op = ops[i % len(ops)]
             if i % 7 == 3:
-                drop["next"] = True
+                drop["next"] = 1
+            if i % 11 == 5:
+                drop["next"] = 3
+            # now and then the unit answers in the other trailer style (additive check instead of CRC-8): what the library
+            # decodes must not influence what it emits
+            dev_model.check = "sum" if i % 13 in (6, 7) else "crc"
             if op == "refresh":
                 await ac.refresh()
             elif op == "apply":
